@@ -50,9 +50,9 @@ def run_one(harness, timeout_s, tdir):
         if "unwinding assertion" in out and all("unwinding assertion" in f for f in failed):
             res["status"] = "inconclusive"
             res["reason"] = "unwinding bound too small: " + "; ".join(failed)[:300]
-        elif "Status: ERROR" in out or "out of memory" in out.lower():
+        elif "Status: ERROR" in out or "out of memory" in out.lower() or "CBMC failed" in out or not failed:
             res["status"] = "inconclusive"
-            res["reason"] = "CBMC error / out of memory"
+            res["reason"] = "CBMC error / out of memory / no failed check reported: " + out[-300:]
         else:
             res["status"] = "violated"
             res["failed_checks"] = failed[:10]
